@@ -59,9 +59,42 @@ def equal_pair_programs():
             yield ("prog", "e", None, ("u",), ("ret", groups)), [{"u": i} for i in range(48)]
 
 
+# tuple literals shaped like the keyword records of the syntax-tree nodes (a model that coerces "anything dict() accepts")
+RECORDS = [
+    (("id", 7), ("name", "bob")), (("name", "bob"),), (("name", "g"),), (("name", "f"),), ("name", "bob"), ("ab", "cd"), (("name", "f"), ("name", "g")),
+    (("group_definition", "x"), ("group_weight", 1)), (("left_term", 1), ("logical_operator", "=="), ("right_term", 1)),
+    (("left_predicate", 1), ("boolean_operator", "and"), ("right_predicate", 2)), (("predicate", 1), ("true_branch", 2), ("false_branch", 3)),
+    (("conditional_type", "if"), ("predicate", 1), ("true_branch", 2)), (("id", "e"), ("splitting_fields", "u"), ("salt", "s"), ("conditions", 1)),
+    (("name", 5),), (("name", 2.5), ("x", 1)), ((1, 2), (3, 4)), (("a", 1), ("b", 2)),
+]
+
+
+def record_programs():
+    from ..enum.ops import term_of
+
+    T, F = ("ret", (("T", "1"),)), ("else", ("ret", (("F", "1"),)))
+    for R in RECORDS:
+        L = term_of(R)
+        near = [R, R[:-1] or (0,), R + (0,), list(R), R[0], "bob", "g", "f", 1]
+        try:
+            near.append(dict(R))
+        except (TypeError, ValueError):
+            pass
+        envs = [{"u": 1, "f": x, "g": "G", "bob": "B"} for x in near]
+        yield "rec:right", ("prog", "e", None, ("u",), ("if", ("cmp", ("id", "f"), "==", L), T, F)), envs
+        yield "rec:left", ("prog", "e", None, ("u",), ("if", ("cmp", L, "!=", ("id", "f")), T, F)), envs
+        yield "rec:member", ("prog", "e", None, ("u",), ("if", ("cmp", ("id", "f"), "in", ("tup", (L, ("lit", "zz")))), T, F)), envs
+        yield "rec:in", ("prog", "e", None, ("u",), ("if", ("cmp", ("id", "f"), "in", L), T, F)), [{"u": 1, "f": x} for x in list(R) + ["bob", "name", 1, R]]
+        yield "rec:both", ("prog", "e", None, ("u",), ("if", ("cmp", L, "==", L), T, F)), [{"u": 1}]
+
+
 def _work(units):
     acc = progcheck.Acc()
     for v in units:
+        if v == "__records__":
+            for pos, ast, envs in record_programs():
+                progcheck.check_prog(acc, ast, envs, f"lit:{pos}")
+            continue
         if v == "__comment_twins__":
             # texts that differ ONLY inside a comment-looking region of a string literal, compiled one after the other
             # in one process (a cache keyed by the comment-stripped source would mix them up)
@@ -135,7 +168,7 @@ def run(res, tier):
         nums += [i, -i] if i else [0]
     for d in lits.DECS:
         nums += [float(d), -float(d)]
-    units = vals + nums + ["__equal_pairs__", "__comment_twins__", "__recompile_pairs__"]
+    units = vals + nums + ["__equal_pairs__", "__comment_twins__", "__recompile_pairs__", "__records__"]
     for w in pmap(_work, permuted(units, "c05"), chunk=8):
         res.merge_worker(w)
     res.set("states", res.cov.get("programs", 0))
